@@ -28,7 +28,7 @@
      c06_adts_frames, c06_rtp_video / _aac / _raw) and over whole message
      sequences with ANY observer (c06_stream_chains, c06_ts_timestamps,
      c06_audio_frames, c06_patpmt_first, c06_ts_stream, c06_hls_concat,
-     c06_hls_group, c06_observer_view).
+     c06_hls_group, c06_httpts_join, c06_observer_view, c06_rtsp_sdp_first).
    MISSING LINKS: (1) the decomposition of each demultiplexed access unit of
      c06_ts_stream into the published units is proved per frame
      (c06_video_frame_ts / c06_video_message, c06_audio_frames + c06_audio_pes)
@@ -382,6 +382,28 @@ Theorem c06_hls_group : forall c evs g' outs,
 Proof. exact group_hls_no_loss. Qed.
 Print Assumptions c06_hls_group.
 
+(* an HTTP-TS subscriber of that group (fresh, waiting for a boundary, PAT/PMT
+   [pp] known), over any further callbacks: it gets PAT/PMT with the first frame
+   that is fed and then every frame from the first BOUNDARY frame on, nested
+   frames in front of the frame whose callback they were flushed in - each
+   once, nothing in between (the join-point clause at byte level; which frames
+   are boundaries is onFrame's rule: key frames, or audio when there is no video) *)
+Theorem c06_httpts_join : forall c pp cbs g u,
+  g_patpmt g = Some pp -> only_ts cbs -> In u (g_subs g) ->
+  u_fresh u = true -> u_wait u = true -> u_out u = [] ->
+  exists u', In u' (g_subs (replay gstate (g_apply c) g_onpatpmt g cbs))
+    /\ u_id u' = u_id u
+    /\ u_out u' = ((match cb_evs cbs with [] => [] | _ => pp end)
+                   ++ concat (map ev_bytes (from_boundary (cb_evs cbs))))%list.
+Proof.
+  intros c pp cbs g u Hp Ho Hin Hf Hw He.
+  destruct (replay_subs c pp cbs g Hp Ho) as [Hs _].
+  exists (fold_left (fun v ev => sub_feed (Some pp) ev v) (cb_evs cbs) u). split.
+  - rewrite Hs. now apply in_map.
+  - destruct (sub_feed_fold pp (cb_evs cbs) u Hw) as [H1 H2]. split; [exact H1|]. rewrite H2, He, Hf. reflexivity.
+Qed.
+Print Assumptions c06_httpts_join.
+
 (* whatever the observer, its view is that callback sequence: its final state
    is the callbacks replayed, nested frames only where it asked for FlushAudio *)
 Theorem c06_observer_view : forall O (dec : O -> tsev -> bool) (app : O -> tsev -> list tsev -> O) (pp : O -> bytes -> O)
@@ -442,6 +464,19 @@ Theorem c06_rtp_raw : forall opus_fixed s m k rate seq,
     /\ rp_ts p = (rm_ts m * Z.to_N rate / 1000) mod 4294967296.
 Proof. exact remux_raw. Qed.
 Print Assumptions c06_rtp_raw.
+
+(* the analysis phase: whatever the input (any order of headers, metadata,
+   frames), the remuxer emits nothing at all, or the SDP exactly once followed
+   by RTP packets only *)
+Theorem c06_rtsp_sdp_first : forall b64 hex tool opus_fixed l,
+  let outs := run_rtsp_gen b64 hex tool opus_fixed l in
+  outs = [] \/ exists r rest, outs = RSdp r :: rest /\ Forall is_rtp rest.
+Proof.
+  intros b64 hex tool opus_fixed l outs. subst outs. unfold run_rtsp_gen.
+  pose proof (rtsp_sdp_first b64 hex tool opus_fixed l r2r_init) as H. cbn [r2r_init q_done sdp_first] in H.
+  destruct H as [[H _]|(r & rest & H & Hr & _)]; [now left|right; now exists r, rest].
+Qed.
+Print Assumptions c06_rtsp_sdp_first.
 
 (* floor(ms * rate / 1000) is within one tick of the published time at the clock rate *)
 Theorem c06_rtp_tick : forall ms rate, rate <> 0 ->
